@@ -24,7 +24,7 @@ META = {
             'outcome of an edit after transcription: equal NLP or an exception; silently different = violation.  distinct = by history',
     'functions': ['rockit/ocp.py:_transcribed/_transcribe/_untranscribe/solver/solve_limited', 'rockit/stage.py:_set_transcribed and every mutator (set_T, set_t0, subject_to, clear_constraints, add_objective, method, set_value, set_initial)',
                   'rockit/direct_method.py:main_transcribe/inherit/untranscribe', 'rockit/sampling_method.py:clean/untranscribe'],
-    'bounds': 'histories enumerated (not symbolic) up to length 2 exhaustively / 3 sampled over 13 operations x base method in {MS, SS, DC}; N=2, M in {1,2}',
+    'bounds': 'histories enumerated (not symbolic) up to length 2 exhaustively / 3 sampled over 13 operations x base method in {MS, SS, DC}; N=2, M in {1,2}; plus edits (subject_to, add_objective, set_T, clear_constraints) made on a sub-stage of a two-stage OCP after a transcription',
     'outside': 'longer histories; callbacks; external methods; the numeric result of a full solve (only the iteration limit in effect is observed through sol.stats)',
     'assumptions': ['variables of the evolved and the fresh transcription correspond by creation order', 'reals for floats'],
 }
@@ -50,6 +50,12 @@ def instances(tier, seed):
         all3 = [list(h) for h in itertools.product(OPS, OPS, OPS)]
         rng.shuffle(all3)
         hist += all3[:400]
+    # edits made on a SUB-STAGE of a multi-stage OCP after a transcription
+    for si in (0, 1):
+        for op in ('ST', 'AO', 'T', 'CC'):
+            add(kind='multistage', stage=si, op=op)
+    for op2 in (('ST', 'AO'), ('AO', 'T')):
+        add(kind='multistage', stage=1, op=op2)
     meths = [('MS', 'rk', 1), ('SS', 'rk', 2), ('DC', None, 1)]
     for hi, h in enumerate(hist):
         method, intg, M = meths[hi % 3]
@@ -120,7 +126,69 @@ def iters_in_effect(ocp):
         return 'raised: %s' % str(e).splitlines()[-1][:80]
 
 
+def run_multistage(item):
+    """transcribe a two-stage OCP, edit one sub-stage, compare with a fresh OCP declared with the final content"""
+    from . import c12
+    from ..dsl import Con, X, at_tf
+    ops = item['op'] if isinstance(item['op'], tuple) else (item['op'],)
+    si = item['stage']
+    hz = [(('num', Fr(0)), ('num', Fr(1))), (('num', Fr(1)), ('num', Fr(2)))]
+    cfgs = [Cfg('MS', N=2, M=1, intg='rk', grid=fam.G_UNI), Cfg('DC', N=2, M=1, degree=2, scheme='radau', grid=fam.G_UNI)]
+    stages = [dict(spec=c12.stage_model(i), cfg=cfgs[i], t0=hz[i][0], T=hz[i][1], clone_of=None) for i in range(2)]
+    desc = dict(stages=stages, coupling=[('cont', 0, 1), ('wge', 1)], parent=[('w2',)])
+    final = copy.deepcopy(desc)
+    viol = []
+    with quiet():
+        m = c12.build(desc)
+        m.ocp.solver('ipopt')
+        m.ocp._transcribed
+        bs = m.stage_builts[si]
+        fs = final['stages'][si]
+        for n_, op in enumerate(ops):
+            if op == 'ST':
+                c = Con('<=', X(0), 7 + n_)
+                bs.stage.subject_to(bs.mx(c.lhs) <= bs.mx(c.rhs))
+                fs['spec'].cons = list(fs['spec'].cons) + [c]
+            elif op == 'AO':
+                term = at_tf(X(0)) * 3
+                bs.stage.add_objective(bs.mx(term))
+                fs['spec'].objective = list(fs['spec'].objective) + [term]
+            elif op == 'T':
+                bs.stage.set_T(2.5)
+                fs['T'] = ('num', Fr(5, 2))
+            elif op == 'CC':
+                bs.stage.clear_constraints()
+                fs['spec'].cons = []
+    rejected = None
+    try:
+        E_ = Inst(None, None, seed=item.get('seed', 0), built=m, solver=False, extra_outputs=lambda b: [b.ocp.value(b.w)])
+    except RockitRaised as e:
+        rejected = str(e)
+    if rejected:
+        return {'stats': {}, 'obligations': 1, 'discharged': 1, 'nontrivial': [], 'rejected': rejected, 'shape': 'multistage %s stage%d' % (ops, si),
+                'sample': {'history': ['transcribe'] + ['stage%d.%s' % (si, o) for o in ops], 'outcome': 'rejected', 'why': rejected}}
+    with quiet():
+        mf = c12.build(final)
+        mf.ocp.solver('ipopt')
+    F = Inst(None, None, seed=item.get('seed', 0), built=mf, solver=False, like=E_, bind=bind_positional(), extra_outputs=lambda b: [b.ocp.value(b.w)])
+    ch = Checker(E_)
+    diffs, npairs = compare_nlps(ch, E_, F, 'evolved', 'fresh')
+    for key, label, detail in diffs:
+        viol.append({'property': PROP, 'key': '%s|substage-edit:%s' % (key, ops[-1]), 'label': label, 'detail': detail + ' (history: transcribe two-stage OCP, then %s on sub-stage %d)' % (', '.join(ops), si),
+                     'cfg': 'MS+DC', 'spec': 'two stages (c12.stage_model)'})
+    xe, xf = list(E_.nlp.x0()), list(F.nlp.x0())
+    if len(xe) != len(xf) or not all(close(float(a), float(c)) for a, c in zip(xe, xf)):
+        viol.append({'property': PROP, 'key': 'x0-differs|substage-edit:%s' % ops[-1], 'label': 'x0', 'detail': 'starting point differs from the fresh multi-stage OCP'})
+    r = result(E_, ch, {'violations': viol, 'shape': 'multistage %s stage%d' % (ops, si),
+                        'sample': {'history': ['transcribe'] + ['stage%d.%s' % (si, o) for o in ops], 'outcome': 'compared', 'rows': E_.nlp.ng, 'pairs': npairs}})
+    if viol:
+        r['status'] = 'violation'
+    return r
+
+
 def run(item):
+    if item.get('kind') == 'multistage':
+        return run_multistage(item)
     hist = item['history']
     spec, cfg = copy.deepcopy(item['spec']), copy.deepcopy(item['cfg'])
     state = {'max_iter': 0}
